@@ -107,7 +107,7 @@ VslOf(j, k, N) == LET c == (2 * j + 3 * k) % 7
                        [] c = 2 -> [ctl |-> TRUE, vsl |-> {1}] [] c = 3 -> [ctl |-> TRUE, vsl |-> {N}]
                        [] c = 4 -> [ctl |-> TRUE, vsl |-> 1..N]
                        [] c = 5 -> [ctl |-> TRUE, vsl |-> {i \in 1..N : i >= N - 1}]
-                       [] OTHER -> [ctl |-> TRUE, vsl |-> {1, N}]
+                       [] OTHER -> [ctl |-> TRUE, vsl |-> IF N >= 9 THEN {2, 9} ELSE {1, N}]   \* sparse, with a two-digit 0-based neighbour
 
 \* the decorated network of shape s under variant k (all parameters pairwise distinct per slot)
 NetOf(s, k) ==
@@ -120,7 +120,8 @@ NetOf(s, k) ==
       long == IF "long" \in DOMAIN s THEN s.long ELSE {}
   IN [links |-> [id \in {LinkId(j) : j \in DOMAIN E} |->
                    LET j == CHOOSE j \in DOMAIN E : LinkId(j) = id
-                       N == IF j \in long THEN 12 ELSE SegCount(j, k)  c == VslOf(j, k, N)
+                       N == IF j \in long THEN 12 ELSE SegCount(j, k)
+                       c == IF j \in long /\ k % 2 = 0 THEN [ctl |-> TRUE, vsl |-> {2, 9}] ELSE VslOf(j, k, N)
                        u == IF cls = 1 THEN 1 ELSE j       \* table index: one shared slot for the homogeneous class
                    IN [up |-> NodeId(E[j][1]), down |-> NodeId(E[j][2]), N |-> N,
                        lam |-> RQ(Tab(LamT, j + k), 1), L |-> RParse(Tab(LenT, u + 2 * k)),
